@@ -93,8 +93,10 @@ class Report:
                 new.append(v)
         for v in listed:
             print("KNOWN-FINDING: property=%s %s [%s] %s" % (self.prop, v["key"], v["where"], known[v["key"]].get("what", v["msg"])))
-        os.makedirs(os.path.join(VERIF, "evidence"), exist_ok=True)
-        replay = os.path.join(VERIF, "evidence", "%s.violations.json" % self.prop)
+        # checker self-tests (mutants, seeded changes, benign variants) set VERIF_EVIDENCE_DIR so that /verif/evidence keeps describing /repo
+        evdir = os.environ.get("VERIF_EVIDENCE_DIR") or os.path.join(VERIF, "evidence")
+        os.makedirs(evdir, exist_ok=True)
+        replay = os.path.join(evdir, "%s.violations.json" % self.prop)
         if new:
             with open(replay, "w") as f:
                 json.dump(new, f, indent=1)
@@ -132,10 +134,10 @@ class Report:
             "wall_s": round(time.time() - self.t0, 2),
             "violations": len(new),
         }
-        tmp = os.path.join(VERIF, "evidence", "%s.json.tmp" % self.prop)
+        tmp = os.path.join(evdir, "%s.json.tmp" % self.prop)
         with open(tmp, "w") as f:
             json.dump(ev, f, indent=1)
-        os.replace(tmp, os.path.join(VERIF, "evidence", "%s.json" % self.prop))
+        os.replace(tmp, os.path.join(evdir, "%s.json" % self.prop))
         print("%s: %d obligations, %d discharged, %d known findings, %d new violations (%.1fs)" % (
             self.prop, self.obligations, self.discharged, len(listed), len(new), time.time() - self.t0))
         return 1 if new else 0
